@@ -1,10 +1,151 @@
 import TwigModel.Proto
+import TwigModel.Filters
 open Lean
 namespace Twig.Ops
+open Twig.Flt
+
+/-!
+  Driver ops of the Filters area (property C19).
+
+  `filters_apply`   {"cases": [case, …]}  →  {"res": [res, …]}
+      case = {"f": name, "v": val, "args": [val, …], "cm": [[rune, upper, lower], …]}
+      val  = {"k":"null"} | {"k":"bool","b":true} | {"k":"int","i":"-12"}
+           | {"k":"float","neg":false,"m":"125","e":2}          (value ±m/10^e)
+           | {"k":"str","s":hex}
+           | {"k":"list","ty":"any|int|str","arr":false,"items":[scalar val, …]}
+           | {"k":"map","ty":"any|int|str","items":[[hexkey, scalar val], …]}   (later duplicates win)
+      res  = {"r":"ok","v":out} | {"r":"err"} | {"r":"panic"} | {"r":"unsupported"}
+      out  = {"k":"null"} | {"k":"bool"|"int"|"float"|"str","s":hex of toString}
+           | {"k":"list","ty":…,"arr":…,"items":[out, …]} | {"k":"map","ty":…,"items":[[hexkey,out], …]} (key order)
+  `filters_items`   {"vals": [val, …]}  →  {"res": [[out, …], …]}     the for-loop view
+  `filters_spaces`  {} → {"spaces": [rune, …], "encs": [hex, …]}       the model's unicode.IsSpace set and TrimSpace cut set
+  `filters_known`   {"cases": [case, …]} → {"res": [class | null, …]}  recorded-finding class of an input (knownClass)
+  `filters_numpipe` {"cases": [{"m":"1005","k":3,"p":2}, …]} → {"res": [{"round":"100","round_pipe":"100","fixed":"100","fixed_pipe":"100","spec":"101","cmp":"lt"}, …]}
+-/
+
+open Proto
+
+def getNatStr (j : Json) (k : String) : Except String Nat := do
+  let s ← getStr j k
+  match s.toNat? with
+  | some n => pure n
+  | none => throw s!"bad natural in {k}"
+
+def getIntStr (j : Json) (k : String) : Except String Int := do
+  let s ← getStr j k
+  match s.toInt? with
+  | some n => pure n
+  | none => throw s!"bad integer in {k}"
+
+def decodeTy (s : String) : Except String ElemTy :=
+  match s with
+  | "any" => pure .any
+  | "int" => pure .int
+  | "str" => pure .str
+  | _ => throw s!"bad element type {s}"
+
+def decodeScalar (j : Json) : Except String Scalar := do
+  match (← getStr j "k") with
+  | "null" => pure .null
+  | "bool" => pure (.bool (← getBool j "b"))
+  | "int" => pure (.int (← getIntStr j "i"))
+  | "float" => pure (.dec (← getBool j "neg") (← getNatStr j "m") (← getNat j "e"))
+  | "str" => pure (.str (← getBytes j "s"))
+  | k => throw s!"not a scalar: {k}"
+
+def decodeVal (j : Json) : Except String Val := do
+  match (← getStr j "k") with
+  | "list" =>
+    let ty ← decodeTy (← getStr j "ty")
+    let arr ← getBool j "arr"
+    let items ← (← getArr j "items").toList.mapM decodeScalar
+    pure (.list ty arr items)
+  | "map" =>
+    let ty ← decodeTy (← getStr j "ty")
+    let items ← (← getArr j "items").toList.mapM fun e => do
+      match e with
+      | .arr #[k, v] => pure ((← asBytes k), (← decodeScalar v))
+      | _ => throw "bad map entry"
+    pure (.map ty (mapOfList items))
+  | _ => pure (.sc (← decodeScalar j))
+
+def tyName : ElemTy → String
+  | .any => "any" | .int => "int" | .str => "str"
+
+def encodeScalar (s : Scalar) : Json :=
+  match s with
+  | .null => ok [("k", "null")]
+  | .bool _ => ok [("k", "bool"), ("s", hex s.toStr)]
+  | .int _ => ok [("k", "int"), ("s", hex s.toStr)]
+  | .dec .. => ok [("k", "float"), ("s", hex s.toStr)]
+  | .str _ => ok [("k", "str"), ("s", hex s.toStr)]
+
+def encodeVal : Val → Json
+  | .sc s => encodeScalar s
+  | .list ty arr xs => ok [("k", "list"), ("ty", tyName ty), ("arr", arr), ("items", Json.arr (xs.map encodeScalar).toArray)]
+  | .map ty kvs => ok [("k", "map"), ("ty", tyName ty),
+      ("items", Json.arr ((mapSorted kvs).map fun kv => Json.arr #[hex kv.1, encodeScalar kv.2]).toArray)]
+
+def encodeRes : Res → Json
+  | .ok v => ok [("r", "ok"), ("v", encodeVal v)]
+  | .err => ok [("r", "err")]
+  | .panic => ok [("r", "panic")]
+  | .unsupported => ok [("r", "unsupported")]
+
+def decodeCm (j : Json) : Except String CaseMap := do
+  match j.getObjVal? "cm" with
+  | .error _ => pure CaseMap.asciiOnly
+  | .ok (.arr rows) =>
+    let t ← rows.toList.mapM fun row => do
+      match row with
+      | .arr #[r, u, l] => pure ((← r.getNat?), (← u.getNat?), (← l.getNat?))
+      | _ => throw "bad cm row"
+    pure (CaseMap.ofTable t)
+  | .ok _ => throw "bad cm"
+
+def runCase (j : Json) : Except String Json := do
+  let f ← getStr j "f"
+  let v ← decodeVal (← getObj j "v")
+  let args ← (← getArr j "args").toList.mapM decodeVal
+  let cm ← decodeCm j
+  pure (encodeRes (applyFilter cm f v args))
+
+def ordName : Ordering → String
+  | .lt => "lt" | .eq => "eq" | .gt => "gt"
 
 /-- driver ops of the Filters area (see the module TwigModel.Filters); `none` = not one of ours -/
 def filtersOps (op : String) (j : Json) : Option (Except String Json) :=
   match op with
+  | "filters_apply" => some do
+    let cases ← getArr j "cases"
+    let res ← cases.toList.mapM runCase
+    pure (ok [("res", Json.arr res.toArray)])
+  | "filters_items" => some do
+    let vals ← (← getArr j "vals").toList.mapM decodeVal
+    pure (ok [("res", Json.arr (vals.map fun v => Json.arr ((items v).map encodeScalar).toArray).toArray)])
+  | "filters_numpipe" => some do
+    let cases ← getArr j "cases"
+    let res ← cases.toList.mapM fun c => do
+      let m ← getNatStr c "m"
+      let k ← getNat c "k"
+      let p ← getNat c "p"
+      let spec := if k ≤ p then m * 10 ^ (p - k) else Num.specRoundDiv m (10 ^ (k - p))
+      pure (ok [("round", toString (Num.goRoundN m k p)), ("round_pipe", toString (Num.pipeRound m k p)),
+                ("fixed", toString (Num.goFixedN m k p)), ("fixed_pipe", toString (Num.pipeFixed m k p)),
+                ("spec", toString spec), ("cmp", ordName (Num.flCmp m k))])
+    pure (ok [("res", Json.arr res.toArray)])
+  | "filters_spaces" => some do
+    -- every rune the model treats as `unicode.IsSpace` (FACT check against Go's tables)
+    pure (ok [("spaces", Json.arr (((List.range 0x110000).filter Utf8.isSpaceRune).map fun (r : Nat) => (r : Json)).toArray),
+              ("encs", Json.arr (spaceEncs.map hex).toArray)])
+  | "filters_known" => some do
+    let cases ← getArr j "cases"
+    let res ← cases.toList.mapM fun c => do
+      let f ← getStr c "f"
+      let v ← decodeVal (← getObj c "v")
+      let args ← (← getArr c "args").toList.mapM decodeVal
+      pure (match knownClass f v args with | some s => Json.str s | none => Json.null)
+    pure (ok [("res", Json.arr res.toArray)])
   | _ => none
 
 end Twig.Ops
